@@ -1,2 +1,36 @@
-From RSP Require Import Base.
-Theorem C02_placeholder : True. Proof. exact I. Qed.
+(* C02 -- Replies return to the originating client, re-keyed.  Statements only.
+   The theorems are about the model of replyh (Proxy.v), for every state, every packet from the server, every
+   configuration, every regex/digest oracle and every allocation-failure oracle.  That a delivered packet
+   carries a Response Authenticator valid for that client is C06_response_auth applied to the message named
+   here; that hidden attributes are re-keyed is C03; what the correspondence run adds is that the real
+   replyh/sendreply behave as this model on the generated histories. *)
+From RSP Require Import Base Consts Ttl Crypt Packet Rewrite Choose Proxy Slots_proofs Dup_proofs Reply_proofs.
+Local Open Scope N_scope.
+
+(* at most one packet is delivered, to the client that sent the request which currently holds the slot named
+   by the reply's Identifier; it is that request's stored reply, or the serialisation -- under THAT client's
+   secret -- of a message carrying the Identifier and Request Authenticator of the client's original request *)
+Theorem C02_to_originator : forall md5 rx cfg fs st s buf now rnd c p,
+  In (OReply c p) (snd (replyh md5 rx cfg fs st s buf now rnd)) ->
+  exists h r,
+    slot_of st s (nth 1 buf 0) = Some h /\ get_rq st h = Some r /\ rq_from r = Some c /\
+    (rq_replybuf r = Some p \/
+     exists code attrs a,
+       radmsg2buf md5 (mkMsg code (rq_rqid r) (rq_rqauth r) attrs false) (cc_secret (clconf_of cfg c)) = Ok (Some (p, a))) /\
+    filter is_reply (snd (replyh md5 rx cfg fs st s buf now rnd)) = [OReply c p].
+Proof. exact replyh_to_originator. Qed.
+Print Assumptions C02_to_originator.
+
+(* the delivered packet carries the Identifier the client used *)
+Theorem C02_reply_identifier : forall md5 rx cfg fs st s buf now rnd c p,
+  In (OReply c p) (snd (replyh md5 rx cfg fs st s buf now rnd)) ->
+  exists h r, slot_of st s (nth 1 buf 0) = Some h /\ get_rq st h = Some r /\ rq_from r = Some c /\
+    (rq_replybuf r = Some p \/ nth 1 p 0 = rq_rqid r).
+Proof. exact replyh_reply_id. Qed.
+Print Assumptions C02_reply_identifier.
+
+(* a serialised message always carries its own identifier in the Identifier octet *)
+Theorem C02_serialised_identifier : forall md5 m secret b a,
+  radmsg2buf md5 m secret = Ok (Some (b, a)) -> nth 1 b 0 = m_id m.
+Proof. exact radmsg2buf_id. Qed.
+Print Assumptions C02_serialised_identifier.
